@@ -83,8 +83,7 @@ theorem stepL_opts {p p' : PS} (a : Act) (h : Inv p) (hs : stepL p a = some p') 
     split at hs
     · cases hs
     · split at hs
-      · cases hs
-      · rename_i f rest _ hba
+      · rename_i f rest hba
         split at hs
         · rename_i e evs hpf
           cases hs
@@ -110,6 +109,19 @@ theorem stepL_opts {p p' : PS} (a : Act) (h : Inv p) (hs : stepL p a = some p') 
     split at hs
     · cases hs
     · cases hs; exact ⟨runRetries_opts _ _, rfl⟩
+  | bindReq req bt host port =>
+    simp only [stepL] at hs
+    split at hs
+    · cases hs
+    · cases hs
+      refine ⟨?_, rfl⟩
+      show (appBindReq p.a req bt host port).1.opts = p.a.opts
+      unfold appBindReq
+      repeat' split
+      all_goals simp [EP.enqFrame]
+  | bindNext => simp only [stepL] at hs; cases hs; exact ⟨(appBindNext_eff (fun _ => False) _).opts, rfl⟩
+  | bindReply k acc => simp only [stepL] at hs; cases hs; exact ⟨(appBindReply_eff _ _ _).opts, rfl⟩
+  | bindDrop k => simp only [stepL] at hs; cases hs; exact ⟨(appBindDrop_eff _ _).opts, rfl⟩
 
 theorem step_opts {p p' : PS} (s : Side) (a : Act) (h : Inv p) (hs : step p s a = some p') :
     p'.a.opts = p.a.opts ∧ p'.b.opts = p.b.opts := by
